@@ -105,7 +105,18 @@ def run_case(case) -> Outcome:
     net_m, port_m = hub.attach("monitor")
     mon = canopen.RemoteNode(NODE, build_od(spec))
     net_m.add_node(mon)
-    mmaps = setup_maps(mon, maps, consumer=True)
+    if case.get("config") == "sdo":
+        # the consumer writes its configuration to the device with save(); the third node takes it
+        # from the device with read() - the usual way two masters come to share a configuration
+        for cm in cmaps:
+            cm.save()
+        mmaps = []
+        for m in range(len(maps)):
+            mm = mon.tpdo[m + 1]
+            mm.read()
+            mmaps.append(mm)
+    else:
+        mmaps = setup_maps(mon, maps, consumer=True)
     for prt in (port_p, port_c, port_m):
         prt.via_listener = True
     D = []
@@ -249,12 +260,15 @@ def run_case(case) -> Outcome:
                 callbacks[m].append(k)
                 cmaps[m].add_callback(mk_cb(m, k))
             elif kind == "rtr":
-                mark = len(port_c.sent)
-                cmaps[m].remote_request()
-                new = port_c.sent[mark:]
-                should = cmaps[m].enabled and maps[m].get("rtr", True)
+                by_mon = op.get("who") == "mon"
+                rport, rmap = (port_m, mmaps[m]) if by_mon else (port_c, cmaps[m])
+                rcob = maps[m]["cob"] if by_mon else c_cob[m]
+                mark = len(rport.sent)
+                rmap.remote_request()
+                new = rport.sent[mark:]
+                should = (maps[m].get("enabled", True) if by_mon else cmaps[m].enabled) and maps[m].get("rtr", True)
                 if should:
-                    if len(new) != 1 or not new[0].remote or new[0].data != b"" or new[0].can_id != c_cob[m]:
+                    if len(new) != 1 or not new[0].remote or new[0].data != b"" or new[0].can_id != rcob:
                         bad("rtr/frame", f"{tag}: enabled and RTR allowed, frames sent: {new}")
                 elif new:
                     bad("rtr/sent-although-not-allowed", f"{tag}: enabled={cmaps[m].enabled} "
@@ -386,9 +400,11 @@ def case_strategy(draw):
         elif kind == "wait":
             ops.append({"op": "wait", "m": m, "deliver": draw(st.booleans()),
                         "data": draw(st.binary(min_size=8, max_size=8))})
+        elif kind == "rtr":
+            ops.append({"op": "rtr", "m": m, "who": draw(st.sampled_from(["cons", "cons", "mon"]))})
         else:
             ops.append({"op": kind, "m": m})
-    return {"maps": maps, "ops": ops, "config": draw(st.sampled_from(["direct", "direct", "from_od"]))}
+    return {"maps": maps, "ops": ops, "config": draw(st.sampled_from(["direct", "direct", "from_od", "sdo"]))}
 
 
 def enum_cases():
@@ -397,11 +413,12 @@ def enum_cases():
            {"dt": rc.BOOLEAN, "len": 1}, {"dt": rc.REAL32, "len": 32}]
     for en in (True, False):
         for rtr in (True, False):
-          for config in ("direct", "from_od"):
+          for config in ("direct", "from_od", "sdo"):
             yield {"maps": [{"cob": 0x186, "layout": lay, "enabled": en, "rtr": rtr},
                             {"cob": 0x286, "layout": lay, "enabled": True, "rtr": True}],
                    "config": config,
                    "ops": [{"op": "rtr", "m": 0}, {"op": "rtr", "m": 1},
+                           {"op": "rtr", "m": 0, "who": "mon"}, {"op": "rtr", "m": 1, "who": "mon"},
                            {"op": "write", "m": 0, "j": 1, "v": -16, "via": "name"}, {"op": "transmit", "m": 0},
                            {"op": "rtr", "m": 0}]}
     yield {"maps": [{"cob": 0x186, "layout": lay}, {"cob": 0x286, "layout": lay}],
